@@ -961,6 +961,7 @@ func RuleIRecheck(c *core.Ctx) {
 				// a parameter of a function that takes the lock itself: fresh if some caller
 				// hands over a freshly allocated object
 				if inserted != nil && !fresh(inserted) && len(locks) > 0 {
+					callerFresh := false
 					for v := range originSet(p, inserted, 0) {
 						prm, ok := v.(*ssa.Parameter)
 						if !ok || prm.Parent() != fn {
@@ -974,13 +975,14 @@ func RuleIRecheck(c *core.Ctx) {
 								}
 								args := e.Site.Common().Args
 								if idx < len(args) && fresh(args[idx]) {
+									callerFresh = true
 									inserted = prm
 									what += " (the object is allocated by the caller " + core.FuncName(e.Caller.Func) + ")"
 								}
 							}
 						}
 					}
-					if _, isParam := inserted.(*ssa.Parameter); !isParam {
+					if !callerFresh {
 						return
 					}
 				} else if inserted == nil || !fresh(inserted) {
